@@ -31,6 +31,23 @@ def nontrivial(spec):
     return bool(labels), labels
 
 
+def long_frame_cases(ctx):
+    """Frames whose row numbers cross the 1/2/4-byte forms of the frame number (127/128, 16383/16384)."""
+    rows_list = [130, 16390] if ctx.tier == 'quick' else [127, 128, 129, 200, 16383, 16384, 16385, 16500, 33000]
+    for k, rows in enumerate(rows_list):
+        if k % ctx.nshards != ctx.shard:
+            continue
+        yield {'kind': 'spec', 'sul': {'vrl': 8192}, 'write': {'ics': 5000} if rows > 1000 else {},
+               'lfs': [{'hdr': {}, 'ops': [
+                   {'t': 'origin', 'name': 'O', 'attrs': {'file_set_number': {'v': 3, 'r': 'kw'},
+                                                          'creation_time': {'v': {'$dt': '2012-12-12T12:12:12', 'tz': 0},
+                                                                            'r': 'kw'}}},
+                   {'t': 'channel', 'name': 'ROWS', 'data': {'dt': '<u2', 'shape': [rows], 'pat': [rows % 250 | 1, 3]},
+                    'attrs': {}},
+                   {'t': 'channel', 'name': 'PAIR', 'data': {'dt': '|u1', 'shape': [rows, 2], 'pat': [7, 1]}, 'attrs': {}},
+                   {'t': 'frame', 'name': 'LONG', 'attrs': {'channels': {'v': [{'$ref': 1}, {'$ref': 2}], 'r': 'kw'}}}]}]}
+
+
 class C03(Property):
     id = 'C03'
     number = 3
@@ -44,6 +61,9 @@ class C03(Property):
     assumptions = ("numpy astype / tobytes define the expected big-endian slot bytes",
                    "casts are restricted to those numpy defines (finite, in-range, integral for float->int)")
 
+    def enumerate(self, ctx):
+        return long_frame_cases(ctx)
+
     def searches(self, ctx):
         n = 3200 if ctx.tier == 'quick' else 40000
         return [('frames', file_specs(profile(ctx.tier)), n // ctx.nshards)]
@@ -52,6 +72,10 @@ class C03(Property):
         r, dec, ferr = specrun.write_and_decode(spec, ctx)
         nt, labels = nontrivial(spec)
         labels.append('src:' + (spec.get('write') or {}).get('source', 'inline'))
+        if any(op['t'] == 'channel' and op['data']['shape'][0] > 127 for lf in spec['lfs'] for op in lf['ops']):
+            labels.append('rows>127')
+        if any(op['t'] == 'channel' and op['data']['shape'][0] > 16383 for lf in spec['lfs'] for op in lf['ops']):
+            labels.append('rows>16383')
         if r['outcome'] != 'written':
             return Result([], labels, False, outcome_label(r))
         if ferr is not None:
